@@ -11,7 +11,6 @@ theorem EStep.inner_len {s s' : St} (st : EStep s s') : s'.inner.length = s.inne
   cases st with
   | incReg => simp [St.incReg, St.mapFrames]
   | emit i _ _ _ _ => simp [St.push, St.mapFrames]
-  | branch i _ _ _ _ _ => simp [St.push, St.mapFrames]
   | incEmit i _ _ _ _ => simp [St.push, St.incReg, St.mapFrames]
   | addErr k v l o => rfl
   | declare n v i _ _ _ _ _ =>
@@ -22,6 +21,11 @@ theorem ESteps.inner_len {s s' : St} (h : ESteps s s') : s'.inner.length = s.inn
   induction h with
   | refl => rfl
   | tail _ st ih => rw [st.inner_len, ih]
+
+theorem BSteps.inner_len {s s' : St} (h : BSteps s s') : s'.inner.length = s.inner.length := by
+  obtain ⟨s1, h1, rfl | ⟨i, rfl, _⟩⟩ := h
+  · exact h1.inner_len
+  · rw [← h1.inner_len]; simp [St.push, St.mapFrames]
 
 theorem StmtSim.withLen {s s' : St} {rs rs' : RS} (h : StmtSim s s' rs rs' (ScopeRel s' rs'.scope))
     (hl : s'.inner.length = s.inner.length) : StmtSim s s' rs rs' (Post s s' rs') :=
